@@ -4,9 +4,13 @@
   non-vacuity examples; helper lemmas are in `FwdVerif/Lemmas/C12.lean`).
 
   A. the classification table of `errorResponse`, stated outright for every `ErrKind`; a time-out is 504
-     whatever `Op` wraps it (`proxyconnect tcp: dial tcp …`), on every path of an exchange
-  B. the error response: `X-Forwarder-Error`, self-delimiting; the relayed CONNECT rejection: the
-     upstream proxy's reply under the client's protocol version, honouring the client's `close`
+     whatever `Op` wraps it (`proxyconnect tcp: dial tcp …`), on every path of an exchange, and whatever
+     type reports it (`context.DeadlineExceeded`, net/http's time-out errors); a connection the remote
+     host closes early is 502 (F33 is the class for which the TLS clause is still false: a record that
+     is no ServerHello)
+  B. the error response: `X-Forwarder-Error`, self-delimiting, written as HTTP/1.0 or HTTP/1.1 whatever
+     version the request line names; the relayed CONNECT rejection: the upstream proxy's reply under the
+     client's protocol version, honouring the client's `close`
   C. one fault at any point of an exchange: a complete error response, or a prefix that no parser
      accepts as complete (F13, F37 are the classes for which the full statement is false; F12 is
      repaired: a transport-level CONNECT rejection is relayed well-formed)
@@ -14,8 +18,8 @@
   E. `handleLoop`: five consecutive non-closeable errors close the connection — and which errors count
   F. `writeResponse`: the writer selection as a table; a header-only response (HEAD, 1xx, 204, 304) is
      always written by the header-only writer, its body is never read; hence no upstream reply reaches
-     the `panicBody` sentinel of `handleUpgradeResponse` (and the order of the cases matters); F42: a 101
-     reply that is no protocol switch ends the connection without any response (full statement false)
+     the `panicBody` sentinel of `handleUpgradeResponse` (and the order of the cases matters); every
+     accepted reply is answered: a 101 that is no protocol switch with a 502 error response
 
   Not in the model (observed by the correspondence runs only): panic-freedom of net/http and
   crypto/tls on hostile bytes, TCP delivery, the scheduler.
@@ -43,7 +47,7 @@ theorem c12_classification_table (k : ErrKind) :
       | .dns false => (502, "net_dial")
       | .connRefused => (502, "net_dial")
       | .connReset => (502, "net_read")
-      | .unexpectedEOF => (500, "unexpected_error")
+      | .unexpectedEOF => (502, "unexpected_eof")
       | .tlsRecordHeader _ => (502, "tls_record_header")
       | .tlsCertificate => (502, "tls_certificate")
       | .tlsECHRejection => (502, "tls_ech_rejection")
@@ -51,18 +55,18 @@ theorem c12_classification_table (k : ErrKind) :
       | .tlsAlertRemote => (502, "net_remote error")
       | .tlsAlertLocal => (502, "net_local error")
       | .tlsGeneric => (500, "unexpected_error")
-      | .tlsHandshakeTimeout => (500, "unexpected_error")
+      | .tlsHandshakeTimeout => (504, "timeout")
       | .martianStatus s => if s = 0 then (500, "unexpected_error") else (s, "martian_error")
       | .proxyAuth => (407, "proxy_authentication")
       | .denied => (403, "-")
       | .prohibited => (451, "-")
       | .ctxCanceled => (500, "request_ctx_canceled")
-      | .ctxDeadline => (500, "unexpected_error")
+      | .ctxDeadline => (504, "timeout")
       | .connectRejected _ => (500, "unexpected_error")
       | .statusTextError s https =>
         if https = true ∧ 400 ≤ s ∧ s < 600 then (s, "https_status_text") else (500, "unexpected_error")
       | .malformedResponse => (500, "unexpected_error")
-      | .responseHeaderTimeout => (500, "unexpected_error")
+      | .responseHeaderTimeout => (504, "timeout")
       | .other => (500, "unexpected_error") := by
   cases k with
   | opError op t => cases op <;> cases t <;> rfl
@@ -81,7 +85,7 @@ theorem c12_classification_table (k : ErrKind) :
         handleWindowsNetError, handleNetError, handleTLSRecordHeader, handleTLSCertificateError,
         handleTLSECHRejectionError, handleTLSAlertError, handleMartianErrorStatus,
         handleAuthenticationError, handleDenyError, handleProhibitedError,
-        handleContextCancelationError, handleStatusText, pass]
+        handleContextCancelationError, handleStatusText, handleTimeoutError, handleEOFError, pass]
     · by_cases h : 400 ≤ s ∧ s < 600
       · have h0 : s ≠ 0 := by omega
         simp [classify, classifyShape, classifyWith, handlers, firstVerdict, shapeOf, ErrKind.https,
@@ -93,7 +97,7 @@ theorem c12_classification_table (k : ErrKind) :
           handleWindowsNetError, handleNetError, handleTLSRecordHeader, handleTLSCertificateError,
           handleTLSECHRejectionError, handleTLSAlertError, handleMartianErrorStatus,
           handleAuthenticationError, handleDenyError, handleProhibitedError,
-          handleContextCancelationError, handleStatusText, pass, h]
+          handleContextCancelationError, handleStatusText, handleTimeoutError, handleEOFError, pass, h]
   | _ => rfl
 
 example : classify (.opError .dial true) = (504, "net_dial") ∧
@@ -106,11 +110,63 @@ theorem c12_connection_failures_502 (op : NetOp) :
       (classify .connReset).1 = 502 ∧ (classify (.dns false)).1 = 502 := by
   cases op <;> decide
 
-/-- connect time-outs (a dial or a lookup that timed out; any `net.OpError` whose `Timeout()` holds) are 504 -/
+/-- connect time-outs are 504: a dial or a lookup that timed out, any `net.OpError` whose `Timeout()`
+    holds — and the time-outs that are not `net.OpError`s: the bare `context.DeadlineExceeded` of a CONNECT
+    that an upstream proxy does not answer within `ConnectTimeout` (the repaired F34), net/http's TLS
+    handshake time-out and its time-out awaiting the response head -/
 theorem c12_connect_timeouts_504 (op : NetOp) :
     (classify (.opError op true)).1 = 504 ∧ classify (.opError .dial true) = (504, "net_dial") ∧
-      (classify (.dns true)).1 = 504 := by
+      (classify (.dns true)).1 = 504 ∧ classify .ctxDeadline = (504, "timeout") ∧
+      classify .tlsHandshakeTimeout = (504, "timeout") ∧ classify .responseHeaderTimeout = (504, "timeout") := by
   cases op <;> decide
+
+/-- Whatever else an error chain is: if it is a time-out (`errors.As(net.Error)` with `Timeout()`), it is
+    never answered `500 unexpected_error` — for every shape the predicates of the handlers can take, not
+    only the chains listed in `ErrKind`. -/
+theorem c12_timeout_never_unexpected (https : Bool) (e : ErrShape) (ht : e.timeout = true) :
+    (classifyShape https e).2 ≠ "unexpected_error" := by
+  have hne : (firstVerdict handlers https e).1 ≠ 0 :=
+    firstVerdict_ne_zero (h := handleTimeoutError) (by simp [handlers]) (by simp [handleTimeoutError, ht])
+  have hcl : classifyShape https e = firstVerdict handlers https e := by
+    simp [classifyShape, classifyWith, hne]
+  rw [hcl]
+  rcases firstVerdict_mem handlers https e with hp | ⟨h, hm, he⟩
+  · rw [hp] at hne; exact absurd rfl hne
+  · rw [he]; exact handlers_label h hm https e
+
+/-- … and unless one of the specific handlers claims it (a `net.OpError` — then `handleNetError` answers,
+    504 as well when that is the time-out —, a typed TLS error, an `ErrorStatus`, one of the proxy's own
+    refusals, a cancelled context, a status text) the answer is `504 timeout`. -/
+theorem c12_untyped_timeout_504 (https : Bool) (e : ErrShape) (ht : e.timeout = true) (hop : e.opError = none)
+    (h1 : e.recordHeader = none) (h2 : e.certVerification = false) (h3 : e.echRejection = false)
+    (h4 : e.alert = false) (h5 : e.errorStatus = none) (h6 : e.proxyAuth = false) (h7 : e.deny = false)
+    (h8 : e.prohibited = false) (h9 : e.canceled = false) (h10 : e.statusText = none) :
+    classifyShape https e = (504, "timeout") := by
+  obtain ⟨op, rh, cv, ech, al, es, pa, dn, ph, cn, stx, to, eo⟩ := e
+  simp only at ht hop h1 h2 h3 h4 h5 h6 h7 h8 h9 h10
+  subst ht hop h1 h2 h3 h4 h5 h6 h7 h8 h9 h10
+  cases https <;> rfl
+
+example : (classifyShape false { timeout := true }) = (504, "timeout") ∧
+    (classifyShape true { timeout := true, eof := true }) = (504, "timeout") ∧
+    (classifyShape false (shapeOf .ctxDeadline)) = (504, "timeout") := by decide
+
+/-- The remote host closing the connection early (`io.EOF` / `io.ErrUnexpectedEOF`: in the TLS handshake,
+    instead of a reply, inside a reply head that is well-formed as far as it goes) is a 502, never
+    `500 unexpected_error`, whatever else the chain is; a chain that is also a time-out stays 504. -/
+theorem c12_eof_never_unexpected (https : Bool) (e : ErrShape) (he : e.eof = true) :
+    (classifyShape https e).2 ≠ "unexpected_error" ∧ classify .unexpectedEOF = (502, "unexpected_eof") := by
+  refine ⟨?_, by decide⟩
+  have hne : (firstVerdict handlers https e).1 ≠ 0 :=
+    firstVerdict_ne_zero (h := handleEOFError) (by simp [handlers]) (by simp [handleEOFError, he])
+  have hcl : classifyShape https e = firstVerdict handlers https e := by
+    simp [classifyShape, classifyWith, hne]
+  rw [hcl]
+  rcases firstVerdict_mem handlers https e with hp | ⟨h, hm, he'⟩
+  · rw [hp] at hne; exact absurd rfl hne
+  · rw [he']; exact handlers_label h hm https e
+
+example : classifyShape false { eof := true } = (502, "unexpected_eof") := by decide
 
 /-- A time-out is 504 whatever `Op` wraps it: `http.Transport` reports a failed dial to the upstream proxy
     as `proxyconnect tcp: dial tcp …: i/o timeout` — an `OpError` around an `OpError` —, `errors.As` finds
@@ -178,25 +234,28 @@ theorem c12_handler_order_matters :
       classifyWith (handleTLSAlertError :: handlers) false (shapeOf .tlsAlertRemote) = (502, "tls_alert") := by
   decide
 
-/-- full clause "TLS failures are 502" over every way the handshake with the origin can fail —
-    FALSE of the unchanged code (F33): failures that `crypto/tls` / `net/http` report as plain errors
-    (a record that is no ServerHello, a close, the handshake time-out) match no handler -/
-def c12_tls_failures_502_full : Prop := ∀ t : TLSFault, (classify t.errKind).1 = 502
+/-- full clause "TLS failures are 502" over every way the handshake with the origin can fail (504 when
+    the failure is the handshake timing out) — FALSE of the code (F33, the part that is still open):
+    failures that `crypto/tls` detects itself and reports as plain `errors.New("tls: …")` (a record that
+    is no ServerHello) match no handler -/
+def c12_tls_failures_502_full : Prop :=
+  ∀ t : TLSFault, (classify t.errKind).1 = if t = .stall then 504 else 502
 
-/-- TLS failures that arrive as one of the typed errors are 502 -/
-theorem c12_tls_failures_502_partial (t : TLSFault)
-    (h : t ≠ .garbageHandshake ∧ t ≠ .closed ∧ t ≠ .stall) : (classify t.errKind).1 = 502 := by
-  obtain ⟨h1, h2, h3⟩ := h
+/-- every other TLS failure is a 502 — the typed errors, a reset, and the peer closing the connection
+    during the handshake (`io.EOF`, repaired) — or, for the handshake time-out of `http.Transport`
+    (repaired), a 504 -/
+theorem c12_tls_failures_502_partial (t : TLSFault) (h : t ≠ .garbageHandshake) :
+    (classify t.errKind).1 = if t = .stall then 504 else 502 := by
   cases t <;> first | rfl | contradiction
 
-example : TLSFault.expired ≠ .garbageHandshake ∧ TLSFault.expired ≠ .closed ∧ TLSFault.expired ≠ .stall := by
+example : TLSFault.closed ≠ .garbageHandshake ∧ TLSFault.stall ≠ .garbageHandshake ∧
+    classify TLSFault.closed.errKind = (502, "unexpected_eof") ∧
+    classify TLSFault.stall.errKind = (504, "timeout") := by
   decide
 
-/-- a handshake answered with garbage, closed, or left to time out is a 500 `unexpected_error` -/
+/-- a handshake answered with garbage is a 500 `unexpected_error` -/
 theorem c12_tls_failures_502_witness :
-    classify TLSFault.garbageHandshake.errKind = (500, "unexpected_error") ∧
-      classify TLSFault.closed.errKind = (500, "unexpected_error") ∧
-      classify TLSFault.stall.errKind = (500, "unexpected_error") := by decide
+    classify TLSFault.garbageHandshake.errKind = (500, "unexpected_error") := by decide
 
 theorem c12_tls_failures_502_full_false : ¬ c12_tls_failures_502_full := by
   intro h
@@ -216,17 +275,21 @@ theorem c12_rejected_connect_relays_status (s : Nat) :
 
 example : respStatus (.connectRejected 407) = 407 := by decide
 
-/-- full clause "a connect time-out is a 504" including the CONNECT to an upstream proxy that is not
-    answered within `ConnectTimeout` — FALSE of the unchanged code (F34): `dialvia` returns the bare
-    `context.DeadlineExceeded`, which no handler knows -/
-def c12_connect_timeout_504_full : Prop :=
-  (classify (.opError .dial true)).1 = 504 ∧ (classify .ctxDeadline).1 = 504
+/-- "a connect time-out is a 504" on the CONNECT path as well (the repaired F34): a client CONNECT
+    through an upstream proxy that does not answer within `ConnectTimeout` — `dialvia` returns the bare
+    `context.DeadlineExceeded` — is answered with ONE complete `504` error response, kept alive unless the
+    client asked for close; for every exchange that is such a CONNECT -/
+theorem c12_connect_reply_timeout_504 (ex : Exchange) (hk : ex.kind = .connect) (hu : ex.viaUpstream = true) :
+    faultErr (.connectReply .timeout) ex = some .ctxDeadline ∧ respStatus .ctxDeadline = 504 ∧
+      clientStream (.connectReply .timeout) ex = .errorResponse ex.id 504 "timeout" (!ex.reqClose) := by
+  have h1 : faultErr (.connectReply .timeout) ex = some .ctxDeadline := by
+    simp [faultErr, usesConnect, hk, hu]
+  refine ⟨h1, by decide, ?_⟩
+  simp only [clientStream, h1]
+  rfl
 
-theorem c12_connect_timeout_504_witness : classify .ctxDeadline = (500, "unexpected_error") := by decide
-
-theorem c12_connect_timeout_504_full_false : ¬ c12_connect_timeout_504_full := by
-  intro h
-  exact absurd h.2 (by decide)
+example : clientStream (.connectReply .timeout) { id := 31, kind := .connect, viaUpstream := true } =
+    .errorResponse 31 504 "timeout" true := by decide
 
 /-- "otherwise 5xx": every upstream fault is answered 500, 502 or 504 -/
 theorem c12_upstream_faults_5xx (k : ErrKind) (h : upstreamKind k = true) :
@@ -244,7 +307,8 @@ theorem c12_upstream_faults_5xx (k : ErrKind) (h : upstreamKind k = true) :
   | prohibited => simp [upstreamKind] at h
   | _ => decide
 
-example : upstreamKind .unexpectedEOF = true ∧ respStatus .unexpectedEOF = 500 := by decide
+example : upstreamKind .unexpectedEOF = true ∧ respStatus .unexpectedEOF = 502 ∧
+    upstreamKind .malformedResponse = true ∧ respStatus .malformedResponse = 500 := by decide
 
 /-- the proxy's own refusals keep their 4xx; a status-text error keeps a status in [400,600) -/
 theorem c12_status_in_range (k : ErrKind)
@@ -330,7 +394,8 @@ example : (writtenError false { name := [102] } 502 [109] [101]).body.length = 6
 /-- The relayed rejection of a transport-level CONNECT (`GET https://…`, also inside an intercepted
     session, through an upstream proxy that refuses the transport's own CONNECT) is a well-formed
     answer to the CLIENT's request: the status line carries the client's protocol version
-    (`HTTP/1.<minor of the request>`, never the `HTTP/0.0` of the transport's synthetic CONNECT request)
+    (`HTTP/1.<minor of the request>` for an HTTP/1.0 or HTTP/1.1 request — `respMinor` —, never the
+    `HTTP/0.0` of the transport's synthetic CONNECT request)
     and the upstream proxy's status; `Content-Length` is declared exactly once and is the length of the
     relayed body, the bytes on the wire are the head followed by exactly that body; the connection is
     kept unless the client's request (or a shutdown) said otherwise, and when it is not kept
@@ -338,7 +403,7 @@ example : (writtenError false { name := [102] } 502 [109] [101]).body.length = 6
     `net/http` reads them) and every response-rule list without `%name`. -/
 theorem c12_relayed_rejection_wellformed (closing : Bool) (rq : ReqFacts) (st : Nat) (up : HMap) (body : Bytes)
     (hr : NoRename rq.rules) (hv : ∀ r ∈ rq.rules, ValidRule r) (hc : CanonKeys up) (hn : NodupKeys up) :
-    (writtenRelay closing rq st up body).minor = rq.minor ∧
+    (writtenRelay closing rq st up body).minor = respMinor rq ∧
       (writtenRelay closing rq st up body).status = st ∧
       (writtenRelay closing rq st up body).values (bs "Content-Length") = [natToDec body.length] ∧
       (writtenRelay closing rq st up body).body = body ∧
@@ -392,6 +457,45 @@ example : (writtenRelay false { name := [102] } 403 [(xfeName, [[117, 112]])] []
     (writtenRelay false { name := [102] } 403 [(bs "X-Up", [[49]])] []).values xfeName = [] := by
   with_unfolding_all decide
 
+/-- Whatever protocol version the request line names — `http.ReadRequest` takes any `HTTP/<d>.<d>`: the
+    cleartext HTTP/2 preface `PRI * HTTP/2.0`, `GET … HTTP/1.7`, `HTTP/0.9` — a generated error response
+    and a relayed CONNECT rejection are written as `HTTP/1.0` or `HTTP/1.1` (the status line is
+    `HTTP/1.<minor>`, `WireResp.head`): the request's own version when it is one of the two, `HTTP/1.1`
+    otherwise (the repaired F36: the version of the request was echoed, `HTTP/2.0 500 …` on an HTTP/1
+    connection). -/
+theorem c12_response_version_http1 (closing : Bool) (rq : ReqFacts) (st : Nat) (msg err : Bytes) (up : HMap)
+    (body : Bytes) :
+    (writtenError closing rq st msg err).minor = respMinor rq ∧
+      (writtenRelay closing rq st up body).minor = respMinor rq ∧
+      (respMinor rq = 0 ∨ respMinor rq = 1) ∧
+      (rq.major = 1 → rq.minor ≤ 1 → respMinor rq = rq.minor) ∧
+      (¬ (rq.major = 1 ∧ rq.minor ≤ 1) → respMinor rq = 1) := by
+  refine ⟨rfl, rfl, ?_, ?_, ?_⟩
+  · unfold respMinor
+    split
+    · rename_i h
+      simp only [Bool.and_eq_true, Bool.or_eq_true, beq_iff_eq] at h
+      exact h.2
+    · exact Or.inr rfl
+  · intro h1 h2
+    have : rq.minor = 0 ∨ rq.minor = 1 := by omega
+    simp [respMinor, h1, this]
+  · intro h
+    unfold respMinor
+    split
+    · rename_i h'
+      simp only [Bool.and_eq_true, Bool.or_eq_true, beq_iff_eq] at h'
+      exact absurd ⟨h'.1, by omega⟩ h
+    · rfl
+
+-- `PRI * HTTP/2.0` and `GET … HTTP/1.7` are answered `HTTP/1.1 …`, an HTTP/1.0 request `HTTP/1.0 …`
+example : (writtenError false { name := [102], major := 2, minor := 0 } 500 [109] [101]).minor = 1 ∧
+    (writtenError false { name := [102], major := 1, minor := 7 } 500 [109] [101]).minor = 1 ∧
+    (writtenError false { name := [102], major := 1, minor := 0, close := true } 502 [109] [101]).minor = 0 ∧
+    (writtenRelay false { name := [102], major := 1, minor := 7 } 403 [] []).minor = 1 ∧
+    ((writtenError false { name := [102], major := 2, minor := 0 } 500 [109] [101]).head.take 9) = bs "HTTP/1.1 " := by
+  with_unfolding_all decide
+
 /-! ## C. one fault at any point of an exchange -/
 
 /-- a fault before the reply head is complete — dial, TLS handshake, CONNECT reply, `k` bytes of the
@@ -413,8 +517,13 @@ theorem c12_early_fault_yields_one_response (f : Fault) (ex : Exchange)
   · exact absurd hc (hc2 s n k)
   · exact Or.inl h
 
-example : clientStream (.headCut 17 false false) { id := 1, headLen := 47, framing := .cl 10, bodyLen := 10 } =
-    .errorResponse 1 500 "unexpected_error" true := by decide
+-- a head torn inside a line is a malformed reply (500); torn behind a complete line, an early close (502)
+example : clientStream (.headCut 17 false false false) { id := 1, headLen := 47, framing := .cl 10, bodyLen := 10 } =
+      .errorResponse 1 500 "unexpected_error" true ∧
+    clientStream (.headCut 17 false false true) { id := 1, headLen := 47, framing := .cl 10, bodyLen := 10 } =
+      .errorResponse 1 502 "unexpected_eof" true ∧
+    clientStream (.headCut 0 false false false) { id := 1, headLen := 47, framing := .cl 10, bodyLen := 10 } =
+      .errorResponse 1 502 "unexpected_eof" true := by decide
 
 /-- every fault point that raises an error: the status the client reads is the classification's
     (500, 502 or 504), or the upstream proxy's own for a rejected CONNECT -/
@@ -498,11 +607,25 @@ example : transportConnectRejection (.connectReply (.rejected 403 true))
     clientStream (.connectReply (.rejectedCut 407 6 2))
       { id := 4, kind := .mitm, viaUpstream := true } = .relayedRejection 4 407 true true := by decide
 
-/-- a reply whose head stops after `k` bytes, reset or FIN, surfacing or not: a 500 or a 502 -/
-theorem c12_head_cut_status (k : Nat) (r sf : Bool) :
-    respStatus (cutErr k r sf) = 500 ∨ respStatus (cutErr k r sf) = 502 := by
+/-- a reply whose head stops after `k` bytes, reset or FIN, surfacing or not: a 502 — the peer closed or
+    reset the connection before its reply was complete — unless the bytes that did arrive end in a line
+    `http.ReadResponse` takes for malformed (then the 500 of a malformed reply) -/
+theorem c12_head_cut_status (k : Nat) (r sf e : Bool) :
+    (respStatus (cutErr k r sf e) = 500 ∨ respStatus (cutErr k r sf e) = 502) ∧
+      (k = 0 ∨ e = true ∨ (r = true ∧ sf = true) → respStatus (cutErr k r sf e) = 502) := by
   unfold cutErr
-  split <;> split <;> decide
+  constructor
+  · split
+    · split <;> decide
+    · split
+      · decide
+      · split <;> decide
+  · intro h
+    by_cases hk : k = 0
+    · subst hk; cases r <;> rfl
+    · have hk' : (k == 0) = false := by simpa using hk
+      simp only [hk', Bool.false_eq_true, if_false]
+      cases r <;> cases sf <;> cases e <;> simp_all <;> decide
 
 /-- Content-Length framing: after a fault in the body the client has strictly fewer body bytes than
     the head declares, then the close — no parser takes that for a whole message -/
@@ -892,47 +1015,63 @@ theorem c12_connect_reply_never_panics (st : Nat) (h : HMap) (r : ResFacts) :
 example : relay (bs "GET") 101
     [(bs "Connection", [bs "Upgrade"]), (bs "Upgrade", [bs "websocket"]), (bs "Content-Type", [bs "text/event-stream"])] {}
       = .wrote .headerOnly true ∧
-    relay (bs "GET") 101 [(bs "Content-Type", [bs "text/event-stream"])] {} = .closedWithoutResponse ∧
+    relay (bs "GET") 101 [(bs "Content-Type", [bs "text/event-stream"])] {} = .answeredError 502 "martian_error" ∧
     relay (bs "HEAD") 200 [(bs "Content-Type", [bs "text/event-stream"])] { contentLength := 7 } = .wrote .headerOnly false ∧
     relay (bs "GET") 200 [(bs "Content-Type", [bs "text/event-stream"])] { contentLength := -1 } = .wrote .sseFlush false := by
   with_unfolding_all decide
 
-/-- full clause "a reply the transport accepted is answered: the client gets the upstream's response (or
-    an error response), never a bare close" — FALSE of the unchanged code (F42): a `101 Switching
-    Protocols` that is no protocol switch comes with a body that is not writable, and
-    `handleUpgradeResponse` ends the connection without writing anything -/
-def c12_accepted_reply_answered_full : Prop :=
-  ∀ (m : Bytes) (st : Nat) (h : HMap) (r : ResFacts), relay m st h r ≠ .closedWithoutResponse
-
-/-- outside that class every accepted reply is written (header-only, or with its body) -/
-theorem c12_accepted_reply_answered_partial (m : Bytes) (st : Nat) (h : HMap) (r : ResFacts)
-    (hs : st = 101 → protocolSwitch st h = true) :
-    ∃ w, relay m st h r = .wrote w (st == 101) ∧ w = selectWriter m st h r := by
+/-- A reply the transport accepted is answered: the client gets the upstream's response or an error
+    response, never a bare close — whatever status, header, framing and request method.  (The repaired
+    F42: a `101 Switching Protocols` that is no protocol switch comes with a body that is not writable;
+    `handleUpgradeResponse` ended the connection without writing anything.) -/
+theorem c12_accepted_reply_answered (m : Bytes) (st : Nat) (h : HMap) (r : ResFacts) :
+    relay m st h r ≠ .closedWithoutResponse ∧
+      ((∃ w, relay m st h r = .wrote w (st == 101) ∧ w = selectWriter m st h r) ∨
+        (st = 101 ∧ protocolSwitch st h = false ∧ relay m st h r = .answeredError 502 "martian_error")) := by
   unfold relay relayWith bodyAtWrite
   by_cases h1 : (st == 101) = true
   · have h101 : st = 101 := by simpa using h1
-    have hsw := hs h101
     have hho : isHeaderOnlySpec m st = true := by
       subst h101; simp [isHeaderOnlySpec, Resp.headerOnly, Resp.bodyAllowed]
     have hrb := c12_header_only_body_never_read m st h r hho
-    simp [h1, hsw, hrb]
+    cases hsw : protocolSwitch st h
+    · simp only [h1, Bool.false_eq_true, if_true, if_false]
+      exact ⟨by simp, Or.inr ⟨h101, trivial, by decide⟩⟩
+    · simp [h1, hrb]
   · simp only [h1, Bool.false_eq_true, if_false]
     by_cases hho : isHeaderOnlySpec m st = true
     · simp [hho]
     · simp [hho]
 
+/-- … a reply that is a protocol switch, or no `101` at all, is written (header-only, or with its body) -/
+theorem c12_switch_or_other_reply_written (m : Bytes) (st : Nat) (h : HMap) (r : ResFacts)
+    (hs : st = 101 → protocolSwitch st h = true) :
+    ∃ w, relay m st h r = .wrote w (st == 101) ∧ w = selectWriter m st h r := by
+  rcases (c12_accepted_reply_answered m st h r).2 with hw | ⟨h101, hns, _⟩
+  · exact hw
+  · rw [hs h101] at hns; exact absurd hns (by simp)
+
 example : protocolSwitch 101 [(bs "Connection", [bs "keep-alive, Upgrade"]), (bs "Upgrade", [bs "websocket"])] = true := by
   with_unfolding_all decide
 
-theorem c12_accepted_reply_answered_witness :
-    relay (bs "GET") 101 [(bs "Content-Type", [bs "text/event-stream"])] {} = .closedWithoutResponse ∧
-      relay (bs "GET") 101 [(bs "Connection", [bs "Upgrade"])] {} = .closedWithoutResponse ∧
-      relay (bs "GET") 101 [(bs "Upgrade", [bs "websocket"])] {} = .closedWithoutResponse := by
-  with_unfolding_all decide
+/-- … and a `101` that is no protocol switch — no `Upgrade` field, or no `upgrade` token in `Connection` —
+    is answered with the `502` error response of `errNoProtocolSwitch`, whatever else the reply carries -/
+theorem c12_not_a_switch_answered_502 (m : Bytes) (h : HMap) (r : ResFacts) (hns : protocolSwitch 101 h = false) :
+    relay m 101 h r = .answeredError 502 "martian_error" ∧ classify noProtocolSwitchErr = (502, "martian_error") := by
+  refine ⟨?_, by decide⟩
+  rcases (c12_accepted_reply_answered m 101 h r).2 with ⟨w, hw, _⟩ | ⟨_, _, he⟩
+  · exfalso
+    unfold relay relayWith bodyAtWrite at hw
+    simp [hns] at hw
+  · exact he
 
-theorem c12_accepted_reply_answered_full_false : ¬ c12_accepted_reply_answered_full := by
-  intro hfull
-  exact hfull (bs "GET") 101 [(bs "Content-Type", [bs "text/event-stream"])] {} c12_accepted_reply_answered_witness.1
+example : protocolSwitch 101 [(bs "Content-Type", [bs "text/event-stream"])] = false ∧
+    protocolSwitch 101 [(bs "Connection", [bs "Upgrade"])] = false ∧
+    protocolSwitch 101 [(bs "Upgrade", [bs "websocket"])] = false ∧
+    relay (bs "GET") 101 [(bs "Content-Type", [bs "text/event-stream"])] {} = .answeredError 502 "martian_error" ∧
+    relay (bs "HEAD") 101 [(bs "Connection", [bs "Upgrade"])] {} = .answeredError 502 "martian_error" ∧
+    relay (bs "GET") 101 [(bs "Upgrade", [bs "websocket"])] { contentLength := -1 } = .answeredError 502 "martian_error" := by
+  with_unfolding_all decide
 
 /-- The order of the cases is what the theorem rests on: with the event-stream case ahead of the
     header-only case (every case unchanged in itself) a `101 Switching Protocols` reply labelled
